@@ -159,12 +159,15 @@ DeadlineOK(I, d) ==
 Hopeless(I, d) == {t \in Dom(d) : (I.tasks[t].offered \/ Decided(d, t)) /\ ~Admit(I.now, I, t)}
 
 HopelessCancelled(I, d) == \A t \in Hopeless(I, d) : d[t].kind = "cancel"
+\* ... and only those: a task that can still finish with its fastest strategy starting now
+\* (deadline = now + runtime included) is not dropped by the admission test
+OnlyHopelessCancelled(I, d) == \A t \in Dom(d) : d[t].kind = "cancel" => ~Admit(I.now, I, t)
 HopelessNotPlaced(I, d) == \A t \in Hopeless(I, d) : ~Placed(d, t)
 
 HopelessHandled(I, d) ==
     I.enforce =>
         /\ HopelessNotPlaced(I, d)
-        /\ I.policy \in CancelPolicies => HopelessCancelled(I, d)
+        /\ I.policy \in CancelPolicies => (HopelessCancelled(I, d) /\ OnlyHopelessCancelled(I, d))
 
 DeadlineMargin(I, d) ==
     LET V == {d[t].s + Rt(I, t, d[t].k) - I.tasks[t].deadline : t \in {u \in Dom(d) : Placed(d, u)}}
@@ -320,7 +323,7 @@ Holds(c, r) ==
           [] c = "C12.plan_meets_deadline" ->
                 (I.enforce /\ I.policy \in DeadlinePolicies) => DeadlineOK(I, d)
           [] c = "C12.hopeless_cancelled" ->
-                (I.enforce /\ I.policy \in CancelPolicies) => HopelessCancelled(I, d)
+                (I.enforce /\ I.policy \in CancelPolicies) => (HopelessCancelled(I, d) /\ OnlyHopelessCancelled(I, d))
           [] c = "C12.hopeless_not_placed" ->
                 (I.enforce /\ I.policy \in CancelPolicies \cup UnplacedPolicies) => HopelessNotPlaced(I, d)
           [] c = "C12.completed_by_deadline" -> r.src = "e2e" => CompletedOK(I)
